@@ -364,7 +364,7 @@ def c07(tier):
     rep = Reporter("C07", ev)
     res = model_replay("C07", tier, ev, rep, "MC_Curve.tla", f"MC_Curve_split_{tier}.cfg")
     near_knot_insertions("C07", ev, rep, res.records, limit=100 if tier == "quick" else 2000)
-    model_replay("C07", tier, ev, rep, "MC_Curve.tla", "MC_Curve_wide_split_quick.cfg")
+    model_replay("C07", tier, ev, rep, "MC_Curve.tla", "MC_Curve_wide_split_quick.cfg", vector=(tier == "thorough"))
     model_replay("C07", tier, ev, rep, "MC_Curve.tla", f"MC_Curve_join_{tier}.cfg")
     return finish(ev, rep)
 def c08(tier):
@@ -754,7 +754,8 @@ def c15(tier):
     from .vector import vector_replay
     lib = core.import_lib()
     na = 0
-    for cfg in ("MC_Curve_insert_quick.cfg", "MC_Curve_elevate_quick.cfg", "MC_Curve_split_quick.cfg", "MC_Curve_remove_quick.cfg"):
+    for cfg in (("MC_Curve_insert_quick.cfg", "MC_Curve_elevate_quick.cfg") if tier == "quick" else
+                ("MC_Curve_insert_quick.cfg", "MC_Curve_elevate_quick.cfg", "MC_Curve_split_quick.cfg", "MC_Curve_remove_quick.cfg")):
         res = run_tlc("MC_Curve.tla", cfg)
         need_ok(res, cfg)
         ev.add_tlc(res, cfg + " (2-D pairs: caller's arrays unchanged)")
@@ -801,11 +802,11 @@ def c16(tier):
     for module, cfg in scen[:5]:
         if "basis" in cfg:
             continue
-        model_replay_cached("C16", tier, ev, rep, module, cfg, "huge", cache, stride=3 if tier == "quick" else 1)
+        model_replay_cached("C16", tier, ev, rep, module, cfg, "huge", cache, stride=4 if tier == "quick" else 1)
     # rational curves written with weights of size 1e-12 (exact): same curves, same results up to that scale
     for module, cfg in scen[:5]:
         model_replay_cached("C16", tier, ev, rep, module, cfg, "tiny-weights", cache,
-                            filt=lambda t: bool(t["pre"].get("a", {}).get("W")), stride=2 if tier == "quick" else 1)
+                            filt=lambda t: bool(t["pre"].get("a", {}).get("W")), stride=3 if tier == "quick" else 1)
     # operations whose result the spec does not pin down (forced removal / reduction, lossy fitting): the SAME
     # TLC-generated call is executed with Fraction data and with float data and the two results are compared
     for module, cfg in [("MC_Curve.tla", "MC_Curve_remove_quick.cfg"), ("MC_Curve.tla", "MC_Curve_decrease_quick.cfg"),
